@@ -28,6 +28,10 @@ def main():
                 print("%-40s %s" % results[-1], flush=True)
                 continue
             nth = m.get("nth", 0)
+            if nth != "all" and nth >= cnt:
+                results.append((m["name"], "STALE (occurrence %d of %d not found)" % (nth, cnt)))
+                print("%-40s %s" % results[-1], flush=True)
+                continue
             if nth == "all":
                 s2 = s.replace(m["old"], m["new"])
             else:
